@@ -128,6 +128,72 @@ structure Chrono where
 
 def Chrono.midnight (C : Chrono) (y m d : Int) : Int := C.dayNo y m d * 86400
 
+/-- `x as i64` for an `f64`: truncation (`RFloat.toInt`), saturating at the bounds of `i64` -/
+def rt_f64_as_i64 {F : Type} [RFloat F] (x : F) : Int :=
+  let n := RFloat.toInt x
+  if n < -9223372036854775808 then -9223372036854775808
+  else if 9223372036854775807 < n then 9223372036854775807 else n
+
+/-- checked `i64` result -/
+def i64c (x : Int) : Option Int := if -9223372036854775808 ≤ x ∧ x ≤ 9223372036854775807 then some x else none
+
+/-- chrono `TimeDelta::try_seconds` (whole seconds): `Some` iff `|s| ≤ i64::MAX / 1000` -/
+def rt_try_seconds (s : Int) : Option Int := if -9223372036854775 ≤ s ∧ s ≤ 9223372036854775 then some s else none
+
+/-- chrono `TimeDelta::try_days` (`unit` = 86400) / `try_hours` (3600) / `try_minutes` (60) / `try_seconds` (1):
+    `try_seconds(n.checked_mul(unit)?)`; the value is the length in seconds -/
+def rt_try_units (unit n : Int) : Option Int := (i64c (n * unit)).bind rt_try_seconds
+
+/-- chrono `NaiveDateTime::checked_add_signed` on second counts: `Some` iff the sum lies in
+    `NaiveDateTime::MIN ..= MAX` = `-262143-01-01T00:00:00 ..= +262142-12-31T23:59:59` -/
+def rt_checked_add_signed (C : Chrono) (t d : Int) : Option Int :=
+  if C.midnight (-262143) 1 1 ≤ t + d ∧ t + d ≤ C.midnight 262142 12 31 + 86399 then some (t + d) else none
+
+/-! loops and iterator chains: `for x in seq { body }` is a left fold of the (lambda-lifted) body over the sequence, with the
+  outer variables the body assigns as the state; iterators are lists; a step that can panic makes the fold / map `Option`-valued -/
+
+/-- `a..b` -/
+def rt_range (a b : Nat) : List Nat := List.range' a (b - a)
+
+/-- a `for` loop whose body can panic -/
+def rt_foldlM {σ α} (f : σ → α → Option σ) : σ → List α → Option σ
+  | s, [] => some s
+  | s, a :: l => (f s a).bind fun s' => rt_foldlM f s' l
+
+/-- `Iterator::map` with a closure that can panic (the first panic wins; what consumes the results is irrelevant to that) -/
+def rt_mapM {α β} (f : α → Option β) : List α → Option (List β)
+  | [] => some []
+  | a :: l => (f a).bind fun b => (rt_mapM f l).map (b :: ·)
+
+def rt_enumerate_from {α} : Nat → List α → List (Nat × α)
+  | _, [] => []
+  | i, a :: l => (i, a) :: rt_enumerate_from (i + 1) l
+
+/-- `Iterator::enumerate` -/
+def rt_enumerate {α} (l : List α) : List (Nat × α) := rt_enumerate_from 0 l
+
+/-- `std::iter::successors(Some(first), step)` over unsigned integers, collected: `step x = none` = the closure panics,
+    `some none` = the sequence ends after `x`.  The unfold is bounded by fuel `first + 1` (the measure is the value itself);
+    running out of fuel is `none` — a theorem that equates a translated function with a total model shows it does not happen. -/
+def rt_successors_fuel (step : Nat → Option (Option Nat)) : Nat → Nat → Option (List Nat)
+  | 0, _ => none
+  | fuel + 1, x => (step x).bind fun nx =>
+    match nx with
+    | none => some [x]
+    | some y => (rt_successors_fuel step fuel y).map (x :: ·)
+
+def rt_successors (step : Nat → Option (Option Nat)) (first : Option Nat) : Option (List Nat) :=
+  match first with
+  | none => some []
+  | some x => rt_successors_fuel step (x + 1) x
+
+/-- `char::from_u32`: `None` for surrogates and beyond U+10FFFF -/
+def rt_char_from_u32 (n : Nat) : Option Char := if n.isValidChar then some (Char.ofNat n) else none
+
+/-- `str::to_uppercase` on ASCII text (documented domain of the coordinate model; other characters are left alone here, whereas
+    Unicode case mapping may change them and even the length) -/
+def rt_to_uppercase (s : List Char) : List Char := s.map Umya.Coord.upcase
+
 /-- `char::is_whitespace` (Unicode `White_Space`) -/
 def rt_is_whitespace (c : Char) : Bool :=
   let n := c.toNat
